@@ -812,3 +812,58 @@ impl<T> Queue<T> {
         unsafe { (*self.vec.get()).pop() }
     }
 }
+
+#[cfg(gc_arena_verif)]
+impl<T> Queue<T> {
+    fn verif_len(&self) -> usize {
+        unsafe { (*self.vec.get().cast_const()).len() }
+    }
+}
+
+#[cfg(gc_arena_verif)]
+impl Context {
+    pub(crate) fn verif_snapshot(&self) -> crate::verif::Snapshot {
+        use crate::verif::{ObjInfo, Snapshot};
+
+        let mut all = Vec::new();
+        let mut cur = self.all.get();
+        while let Some(p) = cur {
+            let header = p.header();
+            all.push(ObjInfo {
+                addr: p.as_ptr() as usize,
+                color: match header.color() {
+                    GcColor::White => 0,
+                    GcColor::WhiteWeak => 1,
+                    GcColor::Gray => 2,
+                    GcColor::Black => 3,
+                },
+                live: header.is_live(),
+                needs_trace: header.needs_trace(),
+            });
+            cur = header.next();
+        }
+
+        Snapshot {
+            phase: match self.phase {
+                Phase::Mark => 0,
+                Phase::Sweep => 1,
+                Phase::Sleep => 2,
+                Phase::Drop => 3,
+            },
+            root_needs_trace: self.root_needs_trace,
+            gray_len: self.gray.verif_len(),
+            gray_again_len: self.gray_again.verif_len(),
+            all,
+            sweep: self.sweep.map(|p| p.as_ptr() as usize),
+            sweep_prev: self.sweep_prev.get().map(|p| p.as_ptr() as usize),
+        }
+    }
+}
+
+#[cfg(gc_arena_verif)]
+impl<'gc> Mutation<'gc> {
+    /// Read-only snapshot of the collector (verification hook).
+    pub fn verif_snapshot(&self) -> crate::verif::Snapshot {
+        self.context.verif_snapshot()
+    }
+}
